@@ -84,7 +84,11 @@ type c12Cell struct {
 }
 
 func (c *c12Cell) number() {
-	var o, i uint64
+	// HTLC ids start at 1 in each direction: non-zero, colliding across the two
+	// directions on purpose, and disjoint from the ranges used for LogIndex
+	// (100+) and for the per-commitment output indices (20+, 40+, 60+), so that
+	// any index-like field read in place of another addresses no HTLC at all.
+	o, i := uint64(1), uint64(1)
 	for k := range c.HTLCs {
 		if c.HTLCs[k].In {
 			c.HTLCs[k].Idx = i
@@ -194,6 +198,11 @@ type c12Obs struct {
 	ResolvedNotif int        `json:"channel_resolved_notifications"`
 	States        []string   `json:"states"`
 	Errors        []string   `json:"errors"`
+	// Foreign: keyed queries/notifications whose key belongs to no HTLC of the
+	// cell ("dependency: key"), sorted and de-duplicated. Queries: number of keyed
+	// calls answered from the tables.
+	Foreign []string `json:"foreign_keys"`
+	Queries int      `json:"keyed_queries"`
 }
 
 func (o *c12Obs) canon() string {
@@ -213,8 +222,8 @@ func (o *c12Obs) canon() string {
 		}
 		return rs[i].Kind < rs[j].Kind
 	})
-	return fmt.Sprintf("fc=%d pub=%d msgs=%v finals=%v nf=%d ins=%d res=%v done=%d states=%v errs=%v",
-		o.ForceCloses, o.Published, ms, fs, o.NotifyFinal, o.Inserts, rs, o.ResolvedNotif, o.States, o.Errors)
+	return fmt.Sprintf("fc=%d pub=%d msgs=%v finals=%v nf=%d ins=%d res=%v done=%d states=%v errs=%v foreign=%v",
+		o.ForceCloses, o.Published, ms, fs, o.NotifyFinal, o.Inserts, rs, o.ResolvedNotif, o.States, o.Errors, o.Foreign)
 }
 
 // ---------------------------------------------------------------------------
@@ -323,18 +332,24 @@ func (c *c12Channel) NewAnchorResolutions() (*lnwallet.AnchorResolutions, error)
 
 // c12Beacon is the witness beacon: a fixed preimage table, silent subscriptions.
 type c12Beacon struct {
+	w     *c12World
 	known map[lntypes.Hash]lntypes.Preimage
 }
 
-func (b *c12Beacon) SubscribeUpdates(lnwire.ShortChannelID, *channeldb.HTLC, *hop.Payload,
-	[]byte) (*WitnessSubscription, error) {
+func (b *c12Beacon) SubscribeUpdates(scid lnwire.ShortChannelID, htlc *channeldb.HTLC, _ *hop.Payload,
+	_ []byte) (*WitnessSubscription, error) {
 
+	if htlc != nil {
+		b.w.keyed("PreimageDB.SubscribeUpdates", scid == c12Scid && b.w.hashes[htlc.RHash],
+			"chan %v hash %x", scid, htlc.RHash[:4])
+	}
 	return &WitnessSubscription{
 		WitnessUpdates:     make(chan lntypes.Preimage),
 		CancelSubscription: func() {},
 	}, nil
 }
 func (b *c12Beacon) LookupPreimage(h lntypes.Hash) (lntypes.Preimage, bool) {
+	b.w.keyed("PreimageDB.LookupPreimage", b.w.hashes[h], "hash %x", h[:4])
 	p, ok := b.known[h]
 	return p, ok
 }
@@ -342,10 +357,12 @@ func (b *c12Beacon) AddPreimages(...lntypes.Preimage) error { return nil }
 
 // c12Registry answers invoice lookups from a fixed table.
 type c12Registry struct {
+	w     *c12World
 	known map[lntypes.Hash]lntypes.Preimage
 }
 
 func (r *c12Registry) LookupInvoice(_ context.Context, h lntypes.Hash) (invoices.Invoice, error) {
+	r.w.keyed("Registry.LookupInvoice", r.w.hashes[h], "hash %x", h[:4])
 	p, ok := r.known[h]
 	if !ok {
 		return invoices.Invoice{}, invoices.ErrInvoiceNotFound
@@ -382,7 +399,9 @@ func (c *c12ChainIO) GetBestBlock() (*chainhash.Hash, int32, error) {
 
 type c12HtlcNotifier struct{ w *c12World }
 
-func (n *c12HtlcNotifier) NotifyFinalHtlcEvent(models.CircuitKey, channeldb.FinalHtlcInfo) {
+func (n *c12HtlcNotifier) NotifyFinalHtlcEvent(k models.CircuitKey, _ channeldb.FinalHtlcInfo) {
+	n.w.keyed("HtlcNotifier.NotifyFinalHtlcEvent", k.ChanID == c12Scid && n.w.recvIdx[k.HtlcID],
+		"chan %v htlc %d", k.ChanID, k.HtlcID)
 	n.w.mu.Lock()
 	n.w.obs.NotifyFinal++
 	n.w.mu.Unlock()
@@ -401,6 +420,40 @@ type c12World struct {
 	phase  int
 	height atomic.Int32
 	info   func(string, ...any)
+
+	// key tables (read-only after construction)
+	hashes   map[lntypes.Hash]bool // payment hashes of the cell's HTLCs
+	offIdx   map[uint64]bool       // HtlcIndex of offered HTLCs
+	recvIdx  map[uint64]bool       // HtlcIndex of received HTLCs
+	entries  map[c12Entry]bool     // every channeldb.HTLC entry handed to the arbitrator
+	foreign  map[string]bool
+	nQueries int
+}
+
+// keyed records one keyed call; ok=false means the key addresses no HTLC of the
+// cell (the dependency then gives its "unknown" answer).
+func (w *c12World) keyed(dep string, ok bool, format string, a ...any) {
+	w.mu.Lock()
+	w.nQueries++
+	if !ok {
+		w.foreign[dep+": "+fmt.Sprintf(format, a...)] = true
+	}
+	w.mu.Unlock()
+	if !ok {
+		w.info("FOREIGN KEY %s queried with "+format, append([]any{dep}, a...)...)
+	}
+}
+
+type c12Entry struct {
+	In       bool
+	Idx, Log uint64
+	Out      int32
+	Hash     lntypes.Hash
+	Exp      uint32
+}
+
+func c12EntryKey(h channeldb.HTLC) c12Entry {
+	return c12Entry{h.Incoming, h.HtlcIndex, h.LogIndex, h.OutputIndex, h.RHash, h.RefundTimeout}
 }
 
 var c12CommitHash = map[HtlcSetKey]chainhash.Hash{
@@ -411,9 +464,24 @@ var c12CommitHash = map[HtlcSetKey]chainhash.Hash{
 
 var c12BreachHash = chainhash.Hash(sha256.Sum256([]byte("c12-commit-revoked")))
 
-// outIndex is the output index of HTLC k on every commitment on which it has an
-// output (outputs 0 and 1 are the two balance outputs).
-func outIndex(k int) int32 { return int32(2 + k) }
+// outIndexOn is the output index of HTLC k on the given commitment (if it has an
+// output there). The three commitments use disjoint ranges: an output index taken
+// from the wrong commitment's HTLC entry matches nothing.
+func outIndexOn(key HtlcSetKey, k int) int32 {
+	switch key {
+	case LocalHtlcSet:
+		return int32(20 + k)
+	case RemoteHtlcSet:
+		return int32(40 + k)
+	}
+	return int32(60 + k)
+}
+
+// c12LogIndex is the update-log index of HTLC k (equal on all commitments).
+func c12LogIndex(k int) uint64 { return uint64(100 + k) }
+
+// c12Scid is the channel the arbitrator watches; c12OtherScid never appears.
+var c12Scid = lnwire.NewShortChanIDFromInt(0x0c12)
 
 // htlcsOn renders the channeldb.HTLC list of one commitment.
 func (c *c12Cell) htlcsOn(key HtlcSetKey) []channeldb.HTLC {
@@ -431,10 +499,10 @@ func (c *c12Cell) htlcsOn(key HtlcSetKey) []channeldb.HTLC {
 			OutputIndex:   -1,
 			Incoming:      h.In,
 			HtlcIndex:     h.Idx,
-			LogIndex:      uint64(k),
+			LogIndex:      c12LogIndex(k),
 		}
 		if p == c12Output {
-			e.OutputIndex = outIndex(k)
+			e.OutputIndex = outIndexOn(key, k)
 		}
 		out = append(out, e)
 	}
@@ -465,7 +533,7 @@ func (c *c12Cell) resolutions(conf HtlcSetKey) *ContractResolutions {
 		if h.on(conf) != c12Output {
 			continue
 		}
-		op := wire.OutPoint{Hash: hash, Index: uint32(outIndex(k))}
+		op := wire.OutPoint{Hash: hash, Index: uint32(outIndexOn(conf, k))}
 		sd := input.SignDescriptor{Output: &wire.TxOut{Value: int64(1000 * (k + 1))}}
 		var second *wire.MsgTx
 		claim := op
@@ -500,11 +568,31 @@ func newC12World(cell c12Cell, info func(string, ...any)) *c12World {
 	}
 	w.log = &c12Log{state: StateDefault, unresolved: map[ContractResolver]struct{}{}}
 
-	beacon := &c12Beacon{known: map[lntypes.Hash]lntypes.Preimage{}}
-	reg := &c12Registry{known: map[lntypes.Hash]lntypes.Preimage{}}
+	w.hashes, w.offIdx, w.recvIdx = map[lntypes.Hash]bool{}, map[uint64]bool{}, map[uint64]bool{}
+	w.entries, w.foreign = map[c12Entry]bool{}, map[string]bool{}
+	for k, h := range cell.HTLCs {
+		for _, key := range []HtlcSetKey{LocalHtlcSet, RemoteHtlcSet, RemotePendingHtlcSet} {
+			if p := h.on(key); p != c12Absent {
+				out := int32(-1)
+				if p == c12Output {
+					out = outIndexOn(key, k)
+				}
+				pre := c12Preimage(h.In, h.Idx)
+				w.entries[c12Entry{h.In, h.Idx, c12LogIndex(k), out, pre.Hash(), h.Exp}] = true
+			}
+		}
+	}
+	beacon := &c12Beacon{w: w, known: map[lntypes.Hash]lntypes.Preimage{}}
+	reg := &c12Registry{w: w, known: map[lntypes.Hash]lntypes.Preimage{}}
 	fwd := map[uint64]bool{}
 	for _, h := range cell.HTLCs {
 		p := c12Preimage(h.In, h.Idx)
+		w.hashes[p.Hash()] = true
+		if h.In {
+			w.recvIdx[h.Idx] = true
+		} else {
+			w.offIdx[h.Idx] = true
+		}
 		switch h.Pre {
 		case c12PreBcn:
 			beacon.known[p.Hash()] = p
@@ -534,6 +622,10 @@ func newC12World(cell c12Cell, info func(string, ...any)) *c12World {
 			return nil
 		},
 		DeliverResolutionMsg: func(msgs ...ResolutionMsg) error {
+			for _, m := range msgs {
+				w.keyed("DeliverResolutionMsg", m.SourceChan == c12Scid && w.offIdx[m.HtlcIndex],
+					"chan %v htlc %d", m.SourceChan, m.HtlcIndex)
+			}
 			w.mu.Lock()
 			for _, m := range msgs {
 				w.obs.Msgs = append(w.obs.Msgs, c12Msg{
@@ -555,8 +647,10 @@ func newC12World(cell c12Cell, info func(string, ...any)) *c12World {
 			return nil
 		},
 		OnionProcessor: &mockOnionProcessor{},
-		IsForwardedHTLC: func(_ lnwire.ShortChannelID, idx uint64) bool {
-			return fwd[idx]
+		IsForwardedHTLC: func(scid lnwire.ShortChannelID, idx uint64) bool {
+			ok := scid == c12Scid && w.offIdx[idx]
+			w.keyed("IsForwardedHTLC", ok, "chan %v htlc %d", scid, idx)
+			return ok && fwd[idx]
 		},
 		SubscribeBreachComplete: func(*wire.OutPoint, chan struct{}) (bool, error) {
 			return false, nil
@@ -565,7 +659,8 @@ func newC12World(cell c12Cell, info func(string, ...any)) *c12World {
 		PaymentsExpirationGracePeriod: c12Grace,
 		Sweeper:                       c12Sweeper{},
 		HtlcNotifier:                  &c12HtlcNotifier{w: w},
-		PutFinalHtlcOutcome: func(_ lnwire.ShortChannelID, id uint64, settled bool) error {
+		PutFinalHtlcOutcome: func(scid lnwire.ShortChannelID, id uint64, settled bool) error {
+			w.keyed("PutFinalHtlcOutcome", scid == c12Scid && w.recvIdx[id], "chan %v htlc %d", scid, id)
 			w.mu.Lock()
 			w.obs.Finals = append(w.obs.Finals, c12Final{Idx: id, Settled: settled, Phase: w.phase})
 			w.mu.Unlock()
@@ -574,13 +669,15 @@ func newC12World(cell c12Cell, info func(string, ...any)) *c12World {
 		Budget:     *DefaultBudgetConfig(),
 		PreimageDB: beacon,
 		Registry:   reg,
-		QueryIncomingCircuit: func(models.CircuitKey) *models.CircuitKey {
+		QueryIncomingCircuit: func(k models.CircuitKey) *models.CircuitKey {
+			w.keyed("QueryIncomingCircuit", k.ChanID == c12Scid && w.offIdx[k.HtlcID],
+				"chan %v htlc %d", k.ChanID, k.HtlcID)
 			return nil
 		},
 	}
 	arbCfg := ChannelArbitratorConfig{
 		ChanPoint:   wire.OutPoint{Index: 7},
-		ShortChanID: lnwire.NewShortChanIDFromInt(0x0c12),
+		ShortChanID: c12Scid,
 		Channel:     &c12Channel{w: w},
 		ChainEvents: &ChainEventSubscription{},
 		NotifyChannelResolved: func() {
@@ -596,7 +693,11 @@ func newC12World(cell c12Cell, info func(string, ...any)) *c12World {
 		FetchHistoricalChannel: func() (*chanstate.OpenChannel, error) {
 			return &chanstate.OpenChannel{}, nil
 		},
-		FindOutgoingHTLCDeadline: func(channeldb.HTLC) fn.Option[int32] {
+		FindOutgoingHTLCDeadline: func(h channeldb.HTLC) fn.Option[int32] {
+			// keyed by the complete HTLC entry: it must be one the harness handed
+			// over, and an offered one.
+			w.keyed("FindOutgoingHTLCDeadline", !h.Incoming && w.entries[c12EntryKey(h)],
+				"entry %+v", c12EntryKey(h))
 			return fn.None[int32]()
 		},
 		ChainArbitratorConfig: chainCfg,
@@ -698,6 +799,12 @@ func (w *c12World) snapshot() c12Obs {
 	o.States = append([]string{}, w.obs.States...)
 	o.Errors = append([]string{}, w.obs.Errors...)
 	o.Inserts = n
+	o.Queries = w.nQueries
+	o.Foreign = nil
+	for k := range w.foreign {
+		o.Foreign = append(o.Foreign, k)
+	}
+	sort.Strings(o.Foreign)
 	o.Resolvers = nil
 	for _, r := range ins {
 		cr := c12Res{Kind: fmt.Sprintf("%T", r)}
